@@ -13,9 +13,9 @@ func (p *ParserPlanner) json(ctx *shared.PlannerContext) (sql.ISelect, error) {
 		return nil, err
 	}
 
-	jsonPaths := make([][]string, len(p.Vals))
+	jsonPaths := make([][]any, len(p.Vals))
 	for i, val := range p.Vals {
-		jsonPaths[i], err = shared.JsonPathParamToArray(val)
+		jsonPaths[i], err = shared.JsonPathParamToTypedArray(val)
 		if err != nil {
 			return nil, err
 		}
@@ -38,7 +38,7 @@ func (p *ParserPlanner) json(ctx *shared.PlannerContext) (sql.ISelect, error) {
 type sqlJsonParser struct {
 	col    sql.SQLObject
 	labels []string
-	paths  [][]string
+	paths  [][]any
 }
 
 func (s *sqlJsonParser) String(ctx *sql.Ctx, opts ...int) (string, error) {
@@ -61,7 +61,7 @@ func (s *sqlJsonParser) String(ctx *sql.Ctx, opts ...int) (string, error) {
 		strings.Join(strVals, ",")), nil
 }
 
-func (s *sqlJsonParser) path2Sql(path []string, ctx *sql.Ctx, opts ...int) (string, error) {
+func (s *sqlJsonParser) path2Sql(path []any, ctx *sql.Ctx, opts ...int) (string, error) {
 	colName, err := s.col.String(ctx, opts...)
 	if err != nil {
 		return "", err
@@ -70,7 +70,16 @@ func (s *sqlJsonParser) path2Sql(path []string, ctx *sql.Ctx, opts ...int) (stri
 	res := make([]string, len(path))
 	for i, part := range path {
 		var err error
-		res[i], err = (sql.NewStringVal(part)).String(ctx, opts...)
+		switch part := part.(type) {
+		case int:
+			// an array index: ClickHouse counts from 1 and takes it as an integer argument
+			// (a string argument is an object key)
+			res[i] = fmt.Sprintf("%d", part+1)
+		case string:
+			res[i], err = (sql.NewStringVal(part)).String(ctx, opts...)
+		default:
+			err = fmt.Errorf("unsupported json path element %v", part)
+		}
 		if err != nil {
 			return "", err
 		}
